@@ -2,5 +2,5 @@ CONSTANTS K = 4
           NoParityCheck = FALSE
 INIT Init
 NEXT Next
-INVARIANTS Sound OnlyParityUncounted CodeBitsOk
+INVARIANTS Sound OnlyParityUncounted
 CHECK_DEADLOCK FALSE
